@@ -2,6 +2,7 @@ package props
 
 import (
 	"math/rand"
+	"os"
 	"strings"
 
 	"verifharness/hist"
@@ -303,7 +304,16 @@ func somePaths(r *rand.Rand, max int) []string {
 var SafeLocal []string
 var safeLocal = map[string]bool{}
 
+// FreshProcessEnv: set (to anything) in the environment of the fresh-process children of C09
+// (c09_spell.go).  In such a process the library must not have built anything before the job
+// under test, so the measurement below is skipped; SafeLocal is then empty and the generators
+// that draw from it (FileSetup) must not be used - the child only runs generators that do not.
+const FreshProcessEnv = "VERIF_FRESH_PROCESS"
+
 func init() {
+	if os.Getenv(FreshProcessEnv) != "" {
+		return
+	}
 	for _, p := range PathPool {
 		w := hist.NewWorld()
 		obs := w.Exec(hist.History{{Kind: "newfilepath", F: 0, A: p}, {Kind: "render", F: 0}})
